@@ -19,7 +19,7 @@ Step(e) ==
   CASE e.ev = "Reset" -> c08' = "" /\ UNCHANGED bad
     [] e.ev = "Frame" ->
          LET have   == e.inlen >= 4
-             minlen == IF e.entry = "fx.readPacket" THEN 5 ELSE 1      \* filexfer requires type byte + request id
+             minlen == IF e.entry \in {"fx.readPacket", "fx.readPacket+bigbuf"} THEN 5 ELSE 1      \* filexfer requires type byte + request id
              refuse == have /\ (TooLong(e.hi, e.lo) \/ (e.hi = 0 /\ e.lo < minlen))
              fits   == have /\ ~refuse /\ e.hi * 65536 + e.lo <= e.inlen - 4 IN
          /\ c08' = Set(c08, e.class = "panic"
